@@ -1,6 +1,7 @@
 package rules
 
 import (
+	"go/token"
 	"sort"
 	"strings"
 
@@ -291,6 +292,91 @@ func c09(c *Ctx) {
 	if fn := c.Fn(batchPkg, "Plugin", "Calculate"); fn != nil {
 		c09degrade(c, fn)
 	}
+	if fn := c.Fn(resutilPkg, "", "GetPodNUMARequestAndUsage"); fn != nil {
+		c09zones(c, fn)
+	}
+}
+
+// c09zones: the share per allocated zone divides by the number of allocated ids that are valid zone indices.
+func c09zones(c *Ctx, fn *ssa.Function) {
+	r := c.R
+	r.Rule("PATH: in GetPodNUMARequestAndUsage the divisor of the per-zone share in the 'allocated zones' arm is a counter that is incremented only under id < numaNum and id >= 0 (so the shares handed to the zones in [0,numaNum) add up to the pod's whole charge)")
+	key := fkey(fn) + "/zone-divisor"
+	var divs []ssa.CallInstruction
+	for _, cl := range an.Calls(fn, false) {
+		if an.ShortCallee(cl.Common()) == "DivideResourceList" {
+			// the arm where the zone was found in the allocated map
+			for _, g := range an.Guards(cl) {
+				if isCommaOk(g.Cond) && g.Truth {
+					divs = append(divs, cl)
+				}
+			}
+		}
+	}
+	if len(divs) == 0 {
+		r.Unknown("PATH", key, c.Pos(fn.Pos()), "per-zone share computation not found")
+		return
+	}
+	okAll := true
+	why := ""
+	for _, d := range divs {
+		var ctr *ssa.Phi
+		for _, l := range an.Sources(d.Common().Args[1], nil) {
+			_ = l
+		}
+		v := d.Common().Args[1]
+		if cv, ok := v.(*ssa.Convert); ok {
+			v = cv.X
+		}
+		ctr, _ = v.(*ssa.Phi)
+		if ctr == nil {
+			okAll, why = false, "the divisor is "+an.Path(d.Common().Args[1])+", not a counter of valid zone ids"
+			continue
+		}
+		// increments of the counter
+		n := 0
+		seen := map[ssa.Value]bool{}
+		var walk func(v ssa.Value)
+		walk = func(v ssa.Value) {
+			if seen[v] {
+				return
+			}
+			seen[v] = true
+			switch x := v.(type) {
+			case *ssa.Phi:
+				for _, e := range x.Edges {
+					walk(e)
+				}
+			case *ssa.BinOp:
+				if x.Op == token.ADD {
+					n++
+					var lt, ge bool
+					for _, g := range an.Guards(x) {
+						bo, ok := g.Cond.(*ssa.BinOp)
+						if !ok || !g.Truth {
+							continue
+						}
+						p := an.Path(bo)
+						if bo.Op == token.LSS && strings.Contains(p, "< numaNum") {
+							lt = true
+						}
+						if bo.Op == token.GEQ && strings.Contains(p, ">= 0") {
+							ge = true
+						}
+					}
+					if !lt || !ge {
+						okAll, why = false, sprintf("the counter is incremented without both range tests (id < numaNum: %v, id >= 0: %v)", lt, ge)
+					}
+					walk(x.X)
+				}
+			}
+		}
+		walk(ctr)
+		if n == 0 {
+			okAll, why = false, "the divisor phi has no guarded increment"
+		}
+	}
+	r.Check(okAll, "PATH", key, c.InstrPos(divs[0]), "the divisor counts only valid zone ids", why+": with an out-of-range NUMA id in the pod's allocation part of its charge lands on no zone and the zone amounts exceed their bound")
 }
 
 func c09mono(c *Ctx, fn *ssa.Function) {
@@ -362,6 +448,47 @@ func c09mono(c *Ctx, fn *ssa.Function) {
 		}
 		r.Check(res[n] != an.PolNone, "MONO", fkey(fn)+"/input-used/"+n, c.Pos(fn.Pos()), n+" lowers the result", n+" no longer influences the result at all")
 	}
+	// per candidate formula (each zero-clamped list): the reservation and the margin lower every candidate, and the
+	// usage-based candidates are lowered by the system usage as well
+	ncand := 0
+	for _, b := range fn.Blocks {
+		for _, in := range b.Instrs {
+			call, ok := in.(*ssa.Call)
+			if !ok || an.CalleeName(&call.Call) != "k8s.io/apiserver/pkg/quota/v1.Max" {
+				continue
+			}
+			isClamp := false
+			for _, a := range call.Call.Args {
+				if ac, ok := a.(*ssa.Call); ok && an.ShortCallee(&ac.Call) == "NewZeroResourceList" {
+					isClamp = true
+				}
+			}
+			if !isClamp {
+				continue
+			}
+			ncand++
+			m := pol.Of(call)
+			which := "?"
+			for _, acc := range []string{"podHPUsed", "podHPReq", "podHPMaxUsedReq"} {
+				if m[acc] != an.PolNone {
+					which = acc
+				}
+			}
+			need := []string{"nodeSafetyMargin", "nodeReserved"}
+			if which == "podHPUsed" || which == "podHPMaxUsedReq" {
+				need = append(need, "systemUsed")
+			}
+			var missing []string
+			for _, n := range need {
+				if m[n] != an.PolDown {
+					missing = append(missing, n+":"+m[n].String())
+				}
+			}
+			r.Check(len(missing) == 0 && which != "?", "MONO", fkey(fn)+"/candidate/"+which, c.InstrPos(call), "candidate by "+which+" is lowered by "+strings.Join(need, ","),
+				"the candidate formula charged with "+which+" is not lowered by "+strings.Join(missing, ", ")+" (e.g. it subtracts the raw system usage instead of max(system usage, node reservation))")
+		}
+	}
+	r.Floor("MONO", "candidate formulas (zero-clamped lists)", ncand, 3)
 	for _, u := range pol.Unknown {
 		r.Unknown("MONO", fkey(fn)+"/operator/"+an.Path(u), c.Pos(u.Pos()), "operator not in the polarity table")
 	}
